@@ -567,6 +567,15 @@ func genParseMain(args []string) {
 			}
 		}
 	}
+	// regular-expression syntax: what regexp.Compile accepts is accepted, what it rejects is an invalid argument --
+	// prefixes x cores x suffixes, valid and invalid, lazy and greedy quantifiers, escapes at either end
+	for _, pre := range []string{"", "^", ".*", ".*?", ".+?", "(?i)", "(?s).*", `\.*`, ".?"} {
+		for _, core := range []string{"a", "abc", "[a-c]+", "(a|b)", `\d`, "a.c", `\.`} {
+			for _, suf := range []string{"", "$", ".*", ".*?", ".+?", `\.*`, `\.`, `\\`, "{2}", "{2,1}", "(", "+", "*", "??", `\/.*`} {
+				emit("$[?(@.a=~/"+pre+core+suf+"/)]", "regex-syntax")
+			}
+		}
+	}
 	for i := 0; i < *n; i++ {
 		if i%10 == 9 {
 			// invalid UTF-8 in front of a syntax error with little text after it
